@@ -7,6 +7,8 @@ Case grammar (one line = one table + a list of queries, every query on a copy of
                                                               exercised; the expected values are still those of a fresh object)
   tr <x_dim> <f_dim> <table rows> <nq> query*                 Interpolation(rows, x_dim, f_dim)
   t2 <x_dim> <y_dim> <f_dim> <list xs> <list ys> <table f> <nq> query2*     Interpolation_2D(xs, ys, f, ...)
+  h2 ... (as t2)                                              the same, all queries on ONE live object
+  t3 <x_dim> <y_dim> <f_dim> <table rows (x y f)> <nq> (I x y)*              Interpolation_2D(data_table, ...), I queries only
  query : I x | D k x | L x | G j m | K x | F x d
    I x    Interpolate(x)                      D k x  Derivative(x, k)             L x  Locate(x)
    G j m  Interpolate on the (m+1)-point sub-grid x_j + (x_{j+1}-x_j) k/m of segment j (last point x_{j+1})
@@ -33,11 +35,13 @@ LEVEL_TEXT = ("Theorems (Coq, over the reals, for every table of length N >= 3 w
               "on shared cell edges and reproduces bilinear functions. The same Gallina terms are extracted and run against the C++ classes on every run "
               "(bit-identical on the generated cases); all clauses are also evaluated on the implementation's output (S4) with a-priori rounding slack. "
               "Not a theorem: behaviour in floating point (rounding), which is covered by the correspondence run and S4 only; the history dependence of "
-              "Locate (property C09); the 3-column Interpolation_2D constructor (sort/unique) is not modelled.")
+              "Locate (property C09). The data-table constructor of Interpolation_2D is modelled (sort and unique by their specification) and "
+              "proved to build the object of the grid constructor for the table of every valid grid; malformed tables are covered by correspondence only.")
 LEVEL_NOTE = ("Coq 8.16.1 kernel; theorems over R use the standard library's real-number axioms and Coquelicot (listed in the evidence); hand-written model "
               "tied by differential correspondence (extraction with ExtrOcamlBasic only); pow(x,k) for k=2,3 is modelled by powerRZ in R and libm pow in the float instance")
 TRUSTED = ["std::pow with exponents 2.0 and 3.0 is modelled by npowi (powerRZ on R, libm pow on doubles)",
-           "every query is made on a copy of the freshly constructed object (the search state machine is property C09)"]
+           "every query is made on a copy of the freshly constructed object (the search state machine is property C09), except in the history modes h1 / h2",
+           "std::sort / std::unique in the data-table constructor are modelled by their specification (insertion sort with operator<, first element of each run kept)"]
 ASSUMPTIONS = ["theorems assume N >= 3, strictly increasing abscissae, real arithmetic; N = 2 tables and malformed tables are covered by correspondence only"]
 
 
@@ -373,12 +377,18 @@ def pow2_dims(rng):
 
 def struct_cases_1d(rng, n):
     cs = []
-    for _ in range(n):
+    # every kind of grid with exactly representable parabola data (inactive limiter: the one place where the clause "parabola data are
+    # reproduced exactly" decides the interval weights) and with straight-line data, then the random products
+    fixed = [(k, N, yk) for k in STRUCT_X for N, yk in ((4, "parabola"), (6, "parabola"), (9, "parabola"), (7, "line"))]
+    for it in range(n):
         N = rng.choice([3, 4, 4, 5, 5, 6, 6, 7, 8, 9, 10, 12, 16, 25, 40, 90])
         r = rng.random()
-        if r < 0.75: xs, xk, dy = struct_xs(rng, N)
-        else: xs, xk = gen_xs(rng, N); dy = xk == "dyadic"
-        ys, yk = struct_ys(rng, xs, None if r < 0.9 else "generic")
+        if it < len(fixed):
+            k, N, yk0 = fixed[it]; xs, xk, dy = struct_xs(rng, N, k, True); ys, yk = struct_ys(rng, xs, yk0)
+        else:
+            if r < 0.75: xs, xk, dy = struct_xs(rng, N)
+            else: xs, xk = gen_xs(rng, N); dy = xk == "dyadic"
+            ys, yk = struct_ys(rng, xs, None if r < 0.9 else "generic")
         xd, fd = pow2_dims(rng)
         sx = scaled(xd, xs); tags = ("1d", "struct", "x:" + xk, "y:" + yk)
         w = rng.random()
@@ -410,8 +420,10 @@ def inner_points(rng, a, b, n, dy):
 
 def struct_cases_2d(rng, n, malformed=True):
     cs = []
-    for _ in range(n):
+    fixed = [(rel, N) for rel in sorted(set(STRUCT_AX)) for N in (3, 5)]      # every relation between the axes at least twice per run
+    for it in range(n):
         N = rng.choice([3, 3, 4, 4, 5, 6, 8, 12]); rel = rng.choice(STRUCT_AX)
+        if it < len(fixed): rel, N = fixed[it]
         if rng.random() < 0.6: xs, xk, dy = struct_xs(rng, N)
         else: xs, xk = gen_xs(rng, N); dy = False
         xd = yd = fd = -1.0; dl = rng.choice(LADDER)
@@ -607,7 +619,7 @@ def generate(rng, tier):
         cs.append(Case(f"t2 {hx(xd)} {hx(yd)} {hx(fd)} {flist(xs)} {flist(ys)} {len(f)} " + " ".join(flist(r) for r in f) + f" {len(qs)} " + " ".join(qs), tags))
     # tables with coincidences: partially regular grids, ordinates with vanishing sums / symmetries, 2-D axes that share size and/or end
     # points, the data-table constructor of Interpolation_2D, live 2-D objects
-    cs += struct_cases_1d(rng, 2500 if big else 260)
+    cs += struct_cases_1d(rng, 2500 if big else 280)
     cs += struct_cases_2d(rng, 1500 if big else 150)
     return cs
 
